@@ -374,7 +374,7 @@ def check_json(report, pm: PyModel):
     sk = render(ts, name)
     txt = sk.describe(sk.text).strip()
     r7.instance(txt)
-    r7.check(re.fullmatch(r"\{api\.gapic_metadata_json\(opts\)\}", txt) is not None, ts.path(name), 1, txt,
+    r7.check(re.fullmatch(r"\{api\.gapic_metadata_json\((options=)?opts\)\}", txt) is not None, ts.path(name), 1, txt,
              "gapic_metadata.json.j2 must print exactly api.gapic_metadata_json(opts)")
     for qual in ("gapic.schema.api.API.gapic_metadata_json", "gapic.samplegen_utils.snippet_index.SnippetIndex.get_metadata_json"):
         fi = pm.func(qual)
@@ -548,8 +548,20 @@ def check_subpackage_listing(report, pm: PyModel):
     import re as _re
     r9 = report.rule("C01.9", "imports filled from api.protos / api.services elements carry the generator's sub-package emission predicate", floor=4)
     rt = pm.func("gapic.generator.generator.Generator._render_template")
+    from .common_rules import stmt_guards as _sg
+    from ..pymodel import nfunc as _nfn
+    nrt = _nfn(pm, rt, keep={"_is_desired_transport", "_get_file", "_render_template"})
     for kind, var in (("%proto", "proto"), ("%service", "service")):
         node, _ = find_match(f"skip_subpackages and {var}.meta.address.subpackage != api_schema.subpackage_view", rt.node)
+        if node is None:
+            # however the test is spelled (continue / guard around the emission, De Morgan): the emission of a per-proto / per-service file runs
+            # under the canonical fact  OR(not skip_subpackages; <x>.meta.address.subpackage == api_schema.subpackage_view)
+            for guards_, st_ in _sg(nrt):
+                if f"{var}={var}" in ast.unparse(st_).replace(" ", "") and "_get_file(" in ast.unparse(st_):
+                    for g_ in guards_:
+                        if g_[0] != "for" and g_[1] is True and g_[0].startswith("OR(") and "not skip_subpackages" in g_[0] \
+                                and f"{var}.meta.address.subpackage == api_schema.subpackage_view" in g_[0]:
+                            node = st_
         r9.need(node is not None, f"_render_template: skip predicate for {kind} under %sub",
                 "the generator no longer restricts per-proto / per-service files to the view's own sub-package: re-derive this rule")
     from ..skq import Lib
@@ -632,6 +644,27 @@ def check_python_package_exprs(report, pm: PyModel):
                 for k in n.keywords:
                     if k.arg == "package":
                         sites.append((q, fi, n, k.value, parents))
+    # a function that reduces to one conditional expression is read leaf by leaf instead (the package may be computed in an if/elif chain
+    # and passed to ONE shared constructor call): each leaf is a construction, its conditions are the guards
+    from ..pymodel import nreturn, decision_leaves
+    leaf_sites = {}
+    for q in sorted({s_[0] for s_ in sites}):
+        fi_ = pm.functions[q]
+        try:
+            e_ = nreturn(pm, fi_, keep={"convert_to_versioned_package"})
+        except Exception:
+            e_ = None
+        if e_ is None:
+            continue
+        ls = []
+        for conds_, leaf_ in decision_leaves(e_):
+            if isinstance(leaf_, ast.Call) and ast.unparse(leaf_.func).split(".")[-1] in ("Address", "Import"):
+                for k in leaf_.keywords:
+                    if k.arg == "package":
+                        ls.append((q, fi_, leaf_, k.value, [c for c, pol in conds_ if pol]))
+        if ls:
+            leaf_sites[q] = ls
+    sites = [s_ for s_ in sites if s_[0] not in leaf_sites] + [x for v in leaf_sites.values() for x in v]
     r.need(len(sites) >= 6, "Address(...) / Import(...) constructions with package=", str(len(sites)))
     own = 0
     from .common_rules import local_env
@@ -644,7 +677,9 @@ def check_python_package_exprs(report, pm: PyModel):
         # enclosing if-tests
         guards = []
         n = call
-        while n in parents:
+        if isinstance(parents, list):
+            guards = list(parents)              # leaf of a decision table: its (positive) conditions
+        while isinstance(parents, dict) and n in parents:
             pnode = parents[n]
             if isinstance(pnode, ast.If) and n in pnode.body:
                 guards.append(ast.unparse(pnode.test))
@@ -652,7 +687,7 @@ def check_python_package_exprs(report, pm: PyModel):
         if isinstance(val, ast.Tuple) and all(isinstance(e, ast.Constant) for e in val.elts):
             r.ok()                      # a fixed third-party package (google.api_core ...)
             continue
-        if src in ("self.package",) or src.startswith("tuple(file_descriptor.package.split("):
+        if src in ("self.package",) or src.startswith(("tuple(file_descriptor.package.split(", "[*file_descriptor.package.split(")):
             r.ok()                      # the proto package itself (descriptor identity / pb2 imports)
             continue
         if "convert_to_versioned_package()" in src:
